@@ -34,7 +34,7 @@ theorem max?_map_ofNat (l : List Nat) : (l.map Int.ofNat).max? = l.max?.map Int.
 /-- `get_membership` of non-negative labels never raises and has `max + 1` columns -/
 theorem getMembership_ofNat {l : List Nat} (h : l ≠ []) :
     getMembership (l.map Int.ofNat) none = .ok (ofLabels l (nLabels l)) := by
-  unfold getMembership nLabels
+  unfold getMembership membershipCols nLabels
   rw [max?_map_ofNat]
   cases hm : l.max? with
   | none => exact absurd (List.max?_eq_none_iff.mp hm) h
@@ -48,7 +48,7 @@ theorem getMembership_ofNat {l : List Nat} (h : l ≠ []) :
       obtain ⟨y, hy, rfl⟩ := List.mem_map.mp hx
       have := hm'.2 y hy
       simp; omega
-    simp only [Option.map_some, bind, Except.bind, pure, Except.pure, h1, h2, if_false, Bool.false_eq_true]
+    simp only [Option.map_some, h1, h2, if_false, Bool.false_eq_true]
     simp [ofLabels]
 
 theorem dot_ofLabels {a b : List Nat} {ka kb : Nat} (hk : ka = b.length) (ha : ∀ x ∈ a, x < b.length) :
